@@ -14,7 +14,7 @@ import z3
 Z3_TIMEOUT_MS = int(os.environ.get('PYVC_Z3_TIMEOUT_MS', '20000'))
 CVC5_TIMEOUT_MS = int(os.environ.get('PYVC_CVC5_TIMEOUT_MS', '30000'))
 CVC5_BIN = '/usr/bin/cvc5'
-RLIMIT_PER_MS = float(os.environ.get('PYVC_RLIMIT_PER_MS', '5000'))
+RLIMIT_PER_MS = float(os.environ.get('PYVC_RLIMIT_PER_MS', '3000'))
 WALL_FACTOR = float(os.environ.get('PYVC_WALL_FACTOR', '12'))
 
 
@@ -350,31 +350,45 @@ def discharge(vcs, axioms_of, tier='quick', both=False, ladders=None):
         vc.result, vc.model, vc.ms, vc.solver, vc.reason = res, model, ms, solver, reason
     # portfolio: the e-matching proofs are sensitive to the solver's internal term order; an obligation that is
     # not decided quickly is re-tried under several seeds / arithmetic back ends in parallel.  Any `unsat` is a proof.
-    jobs_p = []
-    for name, (vc, smt2) in todo.items():
-        if vc.result == 'unknown':
-            for k, opts in enumerate(PORTFOLIO):
-                jobs_p.append(('%s|%d' % (name, k), smt2, Z3_TIMEOUT_MS, True, opts))
     open_names = {n for n, (vc, _) in todo.items() if vc.result == 'unknown'}
-    if jobs_p:
-        for pname, res, model, ms, solver, reason in p.imap_unordered(_check_z3, jobs_p):
-            name, k = pname.rsplit('|', 1)
-            vc, _ = todo[name]
-            if vc.result == 'unknown' and res in ('sat', 'unsat'):
-                vc.result, vc.model, vc.solver, vc.reason = res, model, solver + '+portfolio#%s' % k, reason
-                vc.ms = (vc.ms or 0) + ms
-                open_names.discard(name)
-                if not open_names:
-                    break
-        if not open_names:
-            close_pool()          # kill the portfolio members that are still running
+    if open_names:
+        # the z3 portfolio members and cvc5 run side by side; the first decisive verdict of an obligation is taken
+        pending = []
+        for name in sorted(open_names):
+            vc, smt2 = todo[name]
+            for k, opts in enumerate(PORTFOLIO):
+                pending.append((p.apply_async(_check_z3, (('%s|%d' % (name, k), smt2, Z3_TIMEOUT_MS, True, opts),)), 'z3'))
+            pending.append((p.apply_async(_check_cvc5, ((name + '|c', smt2, CVC5_TIMEOUT_MS, False),)), 'cvc5'))
+        while pending and open_names:
+            still = []
+            progressed = False
+            for ar, kind_ in pending:
+                if not ar.ready():
+                    still.append((ar, kind_))
+                    continue
+                progressed = True
+                pname, res, model, ms, solver, reason = ar.get()
+                name, k = pname.rsplit('|', 1)
+                vc, _ = todo[name]
+                if kind_ == 'cvc5':
+                    vc.second = (res, ms, solver)
+                if vc.result == 'unknown' and res in ('sat', 'unsat'):
+                    vc.result, vc.model, vc.reason = res, model, reason
+                    vc.solver = solver if kind_ == 'cvc5' else solver + '+portfolio#%s' % k
+                    vc.ms = (vc.ms or 0) + ms
+                    open_names.discard(name)
+            pending = still
+            if not progressed:
+                time.sleep(0.05)
+        if pending:
+            close_pool()          # kill the members that are still running
             p = pool()
     if ladders:
         ladder_pass(vcs, todo, axioms_of, ladders)
     # second solver: for remaining unknowns always; for everything when `both`
     jobs2 = []
     for name, (vc, smt2) in todo.items():
-        if vc.result == 'unknown' or both:
+        if (vc.result == 'unknown' and getattr(vc, 'second', None) is None) or both:
             jobs2.append((name, smt2, CVC5_TIMEOUT_MS, False))
     for name, res, model, ms, solver, reason in p.imap_unordered(_check_cvc5, jobs2):
         vc, _ = todo[name]
